@@ -158,7 +158,8 @@ def grid(rng, thorough):
     users = ["root", "u ser"]
     hosts_ = ["example.org", "10.0.0.7"]
     igns = [False, True]
-    optss = [[], ["X=y"], ["ProxyJump=gw", "StrictHostKeyChecking=no"], ["BatchMode=yes", "A=b c"]]
+    optss = [[], ["X=y"], ["ProxyJump=gw", "StrictHostKeyChecking=no"], ["BatchMode=yes", "A=b c"],
+             ["SendEnv=LANG", "ConnectTimeout=5", "SendEnv=TBOT_*"]]          # the same keyword twice: both entries go out
     # (keys spelt with `~` or relative: the text goes to ssh / scp as configured, whoever expands it is the host that runs ssh)
     auths = [["none"], ["key_str", "/k/id_a"], ["key_pathlib", "/k/id_b"], ["key_tbot", "/k/id_c"], ["pass", "s3cr et"],
              ["key_pathlib", "~/.ssh/id_d"], ["key_str", "~/.ssh/id e"], ["key_pathlib", "keys/id_f"]]
@@ -418,8 +419,35 @@ class CopyForeignSuite(Suite):
             for direction in ("ab", "ba"):
                 for clone in (False, True):
                     yield {"derived": derived, "dir": direction, "clone": clone}
+        # an identity file given as a tbot Path of the lab host while scp is started on another host
+        for direction in ("to_remote", "from_remote"):
+            for owner in ("runner", "other"):
+                yield {"foreignkey": True, "dir": direction, "owner": owner}
+
+    def run_key(self, case):
+        rec = Rec()
+        lab = mk_rec_host(0, rec)
+        local = mk_rec_host(1, rec)
+        cfg = dict(DEFAULT_CFG)
+        cfg["auth"] = ["key_tbot", "/k/id_lab"]
+        # scp for the pairing local <-> ssh machine runs on `local`; the key belongs to `local` (fine) or to `lab`
+        keyhost = local if case["owner"] == "runner" else lab
+        b = mk_ssh(cfg, lab, keyhost, 2)
+        p1, p2 = (linux.Path(local, "/src/file"), linux.Path(b, "/dst/file")) if case["dir"] == "to_remote" else (linux.Path(b, "/src/file"), linux.Path(local, "/dst/file"))
+        try:
+            tcopy(p1, p2)
+        except tbot.error.WrongHostError:
+            return [3]
+        except NotImplementedError:
+            return [2]
+        except Exception as e:  # noqa
+            return [98, type(e).__name__ + ": " + str(e)[:80]]
+        ex = [c for c in rec.calls if c[0] == "exec0"]
+        return [0, [list(map(str, c[2])) for c in ex]]
 
     def run(self, case):
+        if case.get("foreignkey"):
+            return self.run_key(case)
         rec = Rec()
         base = type("RecHostA", (_RecHost,), {"hid": 0, "name": "hostA"})
         other_cls = type("RecHostB", (base,), {"hid": 1, "name": "hostB"}) if case["derived"] else base
@@ -443,6 +471,11 @@ class CopyForeignSuite(Suite):
         return [0, [list(map(str, c[2])) for c in ex]]
 
     def oracle(self, case, obs):
+        if case.get("foreignkey"):
+            if case["owner"] == "runner":
+                ok = obs[0] == 0 and len(obs[1]) == 1 and "/k/id_lab" in obs[1][0]
+                return [] if ok else [f"scp with a key file of the host it runs on gave {obs!r}"]
+            return [] if obs == [3] else [f"the identity file is a path on the lab host but scp is started on another host: expected WrongHostError, got {obs!r}"]
         if case["clone"]:
             return [] if obs[0] == 0 and len(obs[1]) == 1 and obs[1][0][0] == "cp" else [f"copy between a machine and its clone gave {obs!r}"]
         if obs[0] in (2, 3):
@@ -450,9 +483,11 @@ class CopyForeignSuite(Suite):
         return [f"copy between two different machines ({'derived' if case['derived'] else 'same'} class) did not raise: {obs!r} (the file would be copied on one machine only)"]
 
     def nontrivial(self, case, obs):
-        return not case["clone"]
+        return bool(case.get("foreignkey")) or not case["clone"]
 
     def klass(self, case, obs):
+        if case.get("foreignkey"):
+            return "key:" + case["owner"]
         return f"{'derived' if case['derived'] else 'same'}:{'clone' if case['clone'] else 'other'}"
 
     def finding_key(self, case, obs, failure):
